@@ -12,6 +12,7 @@ func genC14(t *rapid.T) Case {
 	c := Case{Prof: "c14", Roots: rapid.IntRange(1, 2).Draw(t, "roots"), MaxDir: 100, Variant: rapid.SampledFrom([]int{0, 0, 1, 2}).Draw(t, "variant"),
 		RootStyle: rapid.SampledFrom([]int{0, 0, 0, 1, 2, 3}).Draw(t, "rootStyle")}
 	c.Keys = GenKeys(t, 2, 4, true)
+	c.KeysHex = GenBinKeys(t)
 	c.Ops = GenTxOps(t, TxGenOpts{MinOps: 5, MaxOps: 80, Weights: map[string]int{
 		"begin": 6, "set": 14, "del": 4, "commit": 6, "rollback": 3, "gc": 1}})
 	return c
